@@ -33,6 +33,7 @@ type Oblig struct {
 	Pos     string
 	NAssume int
 	Index   int
+	Blk     int
 	Detail  string
 	// model hints for replay: terms whose values we want from the solver
 	Watch map[string]*Term
@@ -66,6 +67,9 @@ type gen struct {
 	rpoIdx   map[*ssa.BasicBlock]int
 
 	assumes []*Term
+	assumeBlk []int // origin block index of each assumption (-1 = global)
+	curBlk  *ssa.BasicBlock
+	obligedAt map[int][]*ssa.BasicBlock
 	obligs  []*Oblig
 	names   map[string]int
 	notes   map[string]bool
@@ -91,6 +95,11 @@ type gen struct {
 	str2bytes map[int]*Term
 	specErrors []string
 	baseFacts []*Term
+	factCapture *[]*Term
+	guards []guardSpec
+	localRefs map[int]bool
+	privCells []privCell
+	globalsSeen map[int]bool
 	unsupported int
 }
 
@@ -107,18 +116,50 @@ func (g *gen) note(format string, a ...any) {
 	g.notes[fmt.Sprintf(format, a...)] = true
 }
 
+func (g *gen) curPos() token.Pos {
+	if g.curInstr != nil {
+		return g.curInstr.Pos()
+	}
+	return token.NoPos
+}
+
+func (g *gen) blkIdx() int {
+	if g.curBlk == nil {
+		return -1
+	}
+	return g.curBlk.Index
+}
+
 func (g *gen) assume(st *State, f *Term) {
 	if g.dry > 0 || f.IsTrue() {
 		return
 	}
-	g.assumes = append(g.assumes, Implies(st.reach, f))
+	if f.Op == "and" {
+		for _, c := range f.Args {
+			g.assume(st, c)
+		}
+		return
+	}
+	imp := Implies(st.reach, f)
+	if imp.IsTrue() {
+		return
+	}
+	g.assumes = append(g.assumes, imp)
+	g.assumeBlk = append(g.assumeBlk, g.blkIdx())
 }
 
 func (g *gen) assumeGlobal(f *Term) {
 	if g.dry > 0 || f.IsTrue() {
 		return
 	}
+	if f.Op == "and" {
+		for _, c := range f.Args {
+			g.assumeGlobal(c)
+		}
+		return
+	}
 	g.assumes = append(g.assumes, f)
+	g.assumeBlk = append(g.assumeBlk, -1)
 }
 
 func (g *gen) oblige(st *State, kind, label string, goal *Term, detail string) *Oblig {
@@ -127,6 +168,19 @@ func (g *gen) oblige(st *State, kind, label string, goal *Term, detail string) *
 	}
 	if st.reach.IsFalse() {
 		return nil
+	}
+	if goal.IsTrue() && (strings.HasPrefix(kind, "safe:") || kind == "frame") {
+		return nil
+	}
+	// the same goal already obliged at a dominating point is known there
+	// (assert-then-assume): do not ask again
+	if g.curBlk != nil && (strings.HasPrefix(kind, "safe:") || kind == "pre" || kind == "frame") {
+		for _, d := range g.obligedAt[goal.id] {
+			if d.Dominates(g.curBlk) {
+				return nil
+			}
+		}
+		g.obligedAt[goal.id] = append(g.obligedAt[goal.id], g.curBlk)
 	}
 	base := fmt.Sprintf("%s:%s:%s", kind, g.fname, label)
 	g.names[base]++
@@ -139,10 +193,13 @@ func (g *gen) oblige(st *State, kind, label string, goal *Term, detail string) *
 		p := g.eng.fset.Position(g.curInstr.Pos())
 		pos = fmt.Sprintf("%s:%d", p.Filename, p.Line)
 	}
-	o := &Oblig{Name: name, Kind: kind, Func: g.fname, Reach: st.reach, Goal: goal, NAssume: len(g.assumes), Index: len(g.obligs), Pos: pos, Detail: detail}
+	o := &Oblig{Name: name, Kind: kind, Func: g.fname, Reach: st.reach, Goal: goal, NAssume: len(g.assumes), Index: len(g.obligs), Pos: pos, Detail: detail, Blk: g.blkIdx()}
 	g.obligs = append(g.obligs, o)
 	// assert-then-assume
-	g.assumes = append(g.assumes, Implies(st.reach, goal))
+	if imp := Implies(st.reach, goal); !imp.IsTrue() {
+		g.assumes = append(g.assumes, imp)
+		g.assumeBlk = append(g.assumeBlk, g.blkIdx())
+	}
 	return o
 }
 
@@ -234,6 +291,15 @@ func (g *gen) store(st *State, p *Val, t types.Type, v *Val) {
 		g.havocAll(st, "badstore")
 		return
 	}
+	if !g.localRefs[p.L[0].id] {
+		g.effect(st, "store", Lt(g.entry.wm, p.L[0]))
+		for _, l := range ls {
+			if l.Kind != LKOpaque && isStableKey(g.leafKeyFor(p.Addr, l.Path)) {
+				g.oblige(st, "stable", g.lbl(g.curPos(), "", "store"), Lt(g.entry.wm, p.L[0]), "store to a field declared stable (never reassigned after construction) on an object that existed before the call")
+				break
+			}
+		}
+	}
 	if v.Addr != nil && (v.Addr.Elem || v.Addr.Path != "") && len(ls) == 1 && ls[0].Kind == LKRef {
 		g.note("interior pointer stored to the heap (escape): aliasing through it is not tracked")
 	}
@@ -257,11 +323,70 @@ func (g *gen) havocAll(st *State, hint string) {
 	nw := Fresh("wm", SInt)
 	g.assumeGlobal(Le(st.wm, nw))
 	st.wm = nw
-	st.heap = NewEpochHeap(hint, nw)
+	old := st.heap
+	st.heap = NewEpochHeapKeeping(hint, nw, old)
+	// private cells (address-taken locals that never reach a callee: only
+	// loaded, stored and captured by goroutine closures) keep their contents
+	for _, c := range g.privCells {
+		a := &AddrInfo{Root: c.t, Known: true}
+		for _, l := range leavesOf(c.t) {
+			if l.Kind == LKOpaque {
+				continue
+			}
+			k := g.leafKeyL(a, l)
+			v := old.Get(k, l.Sort(), SInt).Read(c.ref, nil)
+			st.heap = st.heap.With(k, st.heap.Get(k, l.Sort(), SInt).Store(c.ref, nil, v))
+		}
+	}
+}
+
+type privCell struct {
+	ref *Term
+	t   types.Type
+}
+
+// isPrivateCell: an Alloc whose address is only used to load, to store into
+// it, or as a binding of a closure that is only ever started with `go`.
+func isPrivateCell(x *ssa.Alloc) bool {
+	et := x.Type().(*types.Pointer).Elem()
+	switch et.Underlying().(type) {
+	case *types.Struct, *types.Array:
+		return false
+	}
+	refs := x.Referrers()
+	if refs == nil {
+		return false
+	}
+	for _, r := range *refs {
+		switch u := r.(type) {
+		case *ssa.Store:
+			if u.Addr != ssa.Value(x) {
+				return false // the address itself is stored somewhere
+			}
+		case *ssa.UnOp:
+		case *ssa.DebugRef:
+		case *ssa.MakeClosure:
+			cr := u.Referrers()
+			if cr == nil {
+				return false
+			}
+			for _, cu := range *cr {
+				switch cu.(type) {
+				case *ssa.Go, *ssa.DebugRef:
+				default:
+					return false
+				}
+			}
+		default:
+			return false
+		}
+	}
+	return true
 }
 
 func (g *gen) alloc(st *State, hint string) *Term {
 	r := Fresh(hint, SInt)
+	g.localRefs[r.id] = true
 	g.assumeGlobal(Lt(st.wm, r))
 	g.assumeGlobal(Lt(Int(0), r))
 	st.wm = r
@@ -369,6 +494,16 @@ func (g *gen) constVal(c *ssa.Const) *Val {
 
 func (g *gen) globalRef(name string) *Term {
 	t := Var("G."+sanitize(name), SInt)
+	if !g.globalsSeen[t.id] {
+		g.globalsSeen[t.id] = true
+		wm0 := Var("wm0", SInt)
+		if g.dry == 0 {
+			g.assumes = append(g.assumes, Lt(Int(0), t), Le(t, wm0))
+			g.assumeBlk = append(g.assumeBlk, -1, -1)
+		} else {
+			delete(g.globalsSeen, t.id)
+		}
+	}
 	return t
 }
 
@@ -636,6 +771,7 @@ func (g *gen) snap() snapshot {
 }
 func (g *gen) restore(s snapshot) {
 	g.assumes = g.assumes[:s.nAss]
+	g.assumeBlk = g.assumeBlk[:s.nAss]
 	g.obligs = g.obligs[:s.nObl]
 	g.names = s.names
 }
@@ -820,7 +956,28 @@ func (g *gen) cutLoop(li *loopInfo, spec *LoopSpec) {
 		nw := Fresh("wm", SInt)
 		g.assumeGlobal(Le(st0.wm, nw))
 		st.wm = nw
-		st.heap = NewEpochHeap("loop", nw)
+		st.heap = NewEpochHeapKeeping("loop", nw, st0.heap)
+		// private cells of a type that is not stored to in the loop keep their value
+		for _, c := range g.privCells {
+			a := &AddrInfo{Root: c.t, Known: true}
+			keep := true
+			for _, l := range leavesOf(c.t) {
+				if _, wr := w[g.leafKeyL(a, l)]; wr {
+					keep = false
+				}
+			}
+			if !keep {
+				continue
+			}
+			for _, l := range leavesOf(c.t) {
+				if l.Kind == LKOpaque {
+					continue
+				}
+				k := g.leafKeyL(a, l)
+				v := st0.heap.Get(k, l.Sort(), SInt).Read(c.ref, nil)
+				st.heap = st.heap.With(k, st.heap.Get(k, l.Sort(), SInt).Store(c.ref, nil, v))
+			}
+		}
 	} else {
 		st.heap = st0.heap
 		nwl := Fresh("wm", SInt)
@@ -958,6 +1115,31 @@ func (g *gen) autoCounterInv(st *State, li *loopInfo, p *ssa.Phi, fv, init *Val)
 			return
 		}
 		sign = s
+	}
+	// range-style upper bound: header ends in `if phi+c < bound` with the
+	// true edge staying in the loop and every back edge carrying phi+c
+	if ifi, ok := li.header.Instrs[len(li.header.Instrs)-1].(*ssa.If); ok && sign > 0 {
+		if cmp, ok := ifi.Cond.(*ssa.BinOp); ok && cmp.Op == token.LSS && li.blocks[li.header.Succs[0]] && !li.blocks[li.header.Succs[1]] {
+			if add, ok := cmp.X.(*ssa.BinOp); ok && add.X == ssa.Value(p) && add.Op == token.ADD {
+				allSame := true
+				for i, pred := range p.Block().Preds {
+					if li.blocks[pred] && p.Edges[i] != ssa.Value(add) {
+						allSame = false
+					}
+				}
+				_, boundIsInstr := cmp.Y.(ssa.Instruction)
+				boundOutside := !boundIsInstr || !li.blocks[cmp.Y.(ssa.Instruction).Block()]
+				if allSame && boundOutside {
+					if c, ok := add.Y.(*ssa.Const); ok && c.Value != nil {
+						step, _ := constant.Int64Val(c.Value)
+						bound := g.val(cmp.Y).L[0]
+						// phi + step <= bound whenever the loop was entered from
+						// inside; initially phi = init: so phi <= max(init, bound - step)
+						g.assume(st, Or(Eq(fv.L[0], init.L[0]), Le(Add(fv.L[0], Int(step)), bound)))
+					}
+				}
+			}
+		}
 	}
 	if sign > 0 {
 		g.assume(st, Le(init.L[0], fv.L[0]))
